@@ -140,12 +140,15 @@ def inFC13a (f : Forest) (m : Method) (c : Ctx) : Bool :=
 
 inductive Clause
   | anonymousOnlyCertificate | appliedOnlyIfEntitled | sessionOnlyOwnEndpoint
+  | endpointOnlyIfAuthenticated | judgedBySendersZone
   deriving Repr, DecidableEq
 
 def Clause.name : Clause → String
   | .anonymousOnlyCertificate => "anonymous_only_certificate"
   | .appliedOnlyIfEntitled => "applied_only_if_entitled"
   | .sessionOnlyOwnEndpoint => "session_only_own_endpoint"
+  | .endpointOnlyIfAuthenticated => "endpoint_only_if_authenticated"
+  | .judgedBySendersZone => "judged_by_senders_zone"
 
 /-- The property on one observed message: whatever was applied, was applied for an entitled sender;
     a connection without authenticated, configured endpoint achieved nothing unless the method is the
@@ -159,6 +162,26 @@ def specStep (f : Forest) (m : Method) (c : Ctx) (o : Obs) : Option Clause :=
   -- changes is the sender's own Endpoint object — no other object, no file, no relay, no execution
   else if m.cls == .session && (o.foreign || o.files || o.relayed || o.executed) then some .sessionOnlyOwnEndpoint
   else none
+
+/-- What every handler is told about the sender of a message — the `MessageOrigin` that
+    `JsonRpcConnection::MessageHandler` builds — as a probe method registered like any other sees it. -/
+structure OriginObs where
+  /-- `origin->FromClient->GetEndpoint()` is set -/
+  hasEndpoint : Bool
+  /-- `origin->FromZone` -/
+  fromZone : Option Zone
+  deriving Repr, DecidableEq
+
+/-- "… only if it comes from an authenticated, configured endpoint whose zone is entitled to it", read for what the
+    handlers are handed: they are told of an endpoint only on an authenticated connection whose identity is a configured
+    endpoint; without one there is no zone to be entitled; and a sender of ANOTHER zone is judged by ITS zone, whatever
+    the message body says.  (For a sender of the receiver's own zone the statement fixes nothing here: F-C13a.) -/
+def specOrigin (c : Ctx) (o : OriginObs) : Option Clause :=
+  if o.hasEndpoint && !(c.authenticated && c.endpointZone.isSome) then some .endpointOnlyIfAuthenticated
+  else
+    match (if c.authenticated then c.endpointZone else none) with
+    | none => if o.fromZone.isSome then some .judgedBySendersZone else none
+    | some ez => if ez != c.localZone && o.fromZone != some ez then some .judgedBySendersZone else none
 
 /-- The property on a whole observed trace (one receiver, messages in order): index and clause of the first
     message that violates it. -/
